@@ -186,7 +186,8 @@ def pruneLoop (g : Graph) (v : VId) : Nat → List NodeId → List NodeId → Li
       let push := (g.incoming node).filter fun m => !seen'.contains m
       pruneLoop g v fuel (push.reverse ++ stack) seen' res
 
-def Graph.numEdges (g : Graph) : Nat := (g.nodes.map fun n => n.incoming.length).foldl (· + ·) 0
+/-- number of CFG edges (sum of the in-degrees) -/
+def Graph.numEdges (g : Graph) : Nat := ((List.range g.nodes.length).map fun n => (g.incoming n).length).sum
 
 def Graph.pruneFuel (g : Graph) : Nat := g.numEdges + 2
 
